@@ -851,3 +851,50 @@ def vary_hook(rng, c):
     else:
         c['via'] = rng.choice([None, 'deco', 'router'])
     return c
+
+
+# --------------------------------------------------------------------------
+# audit (round 4): every public callable / keyword / class-level object of the anchored router code that can
+# influence what C01, C02, C11 observe, with the case kind that exercises it
+# --------------------------------------------------------------------------
+API_SURFACE = [
+    # ---- ombott.py
+    ('Ombott.add_route(rule, method, handler, name, overwrite)', "covered by op 'add' (default form)"),
+    ('Ombott.route(rule, method, callback=None, name, overwrite) decorator and callback forms', "covered by op 'add' via=route_deco / route_cb"),
+    ('Ombott.get/post/put/delete/patch/head/options shortcuts (with_method_shortcuts)', "covered by op 'add' via=shortcut (callback=...) / shortcut_deco; a POSITIONAL callback raises TypeError: finding, patch fixes/F_shortcuts.patch"),
+    ('Ombott.remove_route(rule=, route_pattern=, name=)', "covered by ops 'remove' (rule, incl. prefix *), 'remove_name'; route_pattern= is the same code path after to_pattern: excluded as redundant"),
+    ('Ombott.routes (property)', "covered by probe 'listing'"),
+    ('Ombott.on_route(rule, func) / decorator form', "covered by op 'add_hook' via=None / deco"),
+    ('Ombott.remove_route_hook(rule)', "covered by op 'remove_hook'"),
+    ('Ombott.error(404, rule) -> PARTIAL hook', "covered by op 'add_hook' partial via=error404"),
+    ('Ombott.error(code) without rule / error_handlers', "excluded: error-page registry, observed by C03/C20"),
+    ('Ombott.to_route(path, verb)', "covered by probe 'dispatch' (direct view)"),
+    ('Ombott.handler / _handle / __call__', "covered by probe 'dispatch' (wsgi view: status, Allow, handler kwargs, hooks fired, 404 partial hook)"),
+    ('Ombott._handle: undecodable PATH_INFO -> 400', "covered by the C01 smoke check (oracle only; C09 owns the re-initialisation part)"),
+    ('Ombott._handle: handler raises -> 500', "excluded: C03"),
+    ('environ REQUEST_METHOD case / missing', "case spellings covered (C02 verbs get/Head); missing key excluded: PEP 3333 requires it (wsgi() indexes it)"),
+    ('config domain_map / app_name_header (wsgi() rewrites PATH_INFO)', "excluded: not in the anchored functions; path rewriting precedes routing"),
+    ('Ombott.add_hook/on/emit (before_request, after_request)', "excluded: request hooks, not route hooks (C03/C09)"),
+    # ---- radirouter.py
+    ('RadiRouter.add(rule, methods, handler, name, meta=, overwrite=), methods as str or list', "covered by op 'add' via=router_add with meta, methods as plain str"),
+    ('RadiRouter.__getitem__: name / {rule} / {"rule":} / {"pattern":} / RouteKey(rule) / RouteKey(pattern=)', "covered by probes 'by_name', 'by_rule' form=set|dict|pattern|routekey|routekey_pattern"),
+    ('RadiRouter.__getitem__ misuse: 2-element set, non str/set/dict key, rule and pattern together; RouteKey(rule, pattern)', "covered by C11 oracle _api_misuse (TypeError expected)"),
+    ('RadiRouter.remove(route=str | Route object, route_pattern=, name=)', "covered by ops 'remove', 'remove_obj', 'remove_name'"),
+    ('RadiRouter.resolve(path, methods) / resolve(path) without methods', "covered by probes 'dispatch' / 'resolve_route'"),
+    ('RadiRouter.add_hook(rule, hook, hook_type=SIMPLE|PARTIAL|int) / hook_installer', "covered by op 'add_hook' via=router / int / default; invalid hook type in _api_misuse (ValueError)"),
+    ('RadiRouter.get_hook(rule)', "covered by probe 'get_hook' (KeyError -> None)"),
+    ('RadiRouter.remove_hook(rule) incl. rule ending in *', "covered by op 'remove_hook' (RadiDictError for *)"),
+    ('RadiRouter.routes / named_routes / hooks dicts', "covered by probe 'listing'"),
+    ('Route.methods / _methods order, Route.__getitem__, Route.__call__(method)', "covered by probes 'by_rule' (dict order), 'call_route'"),
+    ('Route.add_method / set_method / remove_method called directly (str or list, no upper-casing)', "covered by ops 'route_method', 'remove_method'"),
+    ('RouteMethod.remove(), .name, .handler, .params, .meta, __call__, __str__/__repr__', "covered by op 'remove_via', dispatch 'method' field + oracle name check, 'by_rule' metas, repr() in every route observation"),
+    ('Route.url / pattern_out / filters_out', "excluded: C19"),
+    ('Route.parse_rule / Parser / SymStream (class-level Parser replaced by one per rule, 68467a7)', "covered through every registration (rule TEXT goes to the code) + malformed stream + smoke seeds; round trip is C01p"),
+    ('FilterFactory.make_filter / filters table / _filter_cache (class-level, shared by all routers)', "covered: int/float/re/path in every flavour; shared cache exercised by the twin-application cases"),
+    ('rex filter / selectors ([n] after filter args)', "excluded: selector rewrites the remaining path; outside the property quantifier (DESIGN C01)"),
+    # ---- radidict.py
+    ('RadiDict.get / _match / _set / _split / _make_route / _mount / remove / _try_merge', "covered by every script (C01 adds, C11 histories incl. the merge-guard family)"),
+    ('RadiDict._routes_iter(startswith=, yield_hooks=)', "covered by probe 'iter' (11 prefixes incl. wildcard, partial key, no match)"),
+    ('RadiDict(path_sep=, param_token=, is_exclusive=), add(params=list), exclusive wildcards', "excluded from the properties (RadiRouter never uses them); documented failure modes in the C01 smoke check; finding: message formatting raises IndexError"),
+    ('RadiDict corruption guards (_split "something went wrong", remove "router seems to be corrupted", _mount "token already here")', "excluded: unreachable — ESplit/EMount impossible is part of proofs/C11_replay.v set_at_acc"),
+]
